@@ -22,6 +22,8 @@ THEOREMS = {
         "MG.C06.permuting_views_never_copy",
         "MG.C06.reshape_view_iff_mergeable_example",
         "MG.C06.permuting_views_layout_independent",
+        "MG.C06.applyIx_layout_independent",
+        "MG.C06.getitem_layout_independent",
     ],
 }
 
@@ -543,4 +545,4 @@ MANIFEST = {
             "the implementation in every case (it is what the first-contribution copy must guarantee).",
 }
 
-MANIFEST_ADDENDUM = 'Oracle additions: 441 histories in which the view chain is taken after backward() (or both before and after) from a C-/Fortran-ordered owner or a former view, with op-made, default, scalar and caller-supplied (C-ordered, Fortran-ordered, broadcast) array seeds, followed by `.shape =` inside no_autodiff; view elements are identified by memory address (any layout of base and view); 18 views made with mutable argument objects (tensor/array-valued indices and slice bounds, list-valued shapes/axes) that the caller changes before the gradient is read. Also proved: permuting_views_layout_independent (for every view op other than basic indexing and reshape, success, result shape and view-ness depend on the operand`s shape only, never on offset or strides: reshape is the one layout-dependent op).'
+MANIFEST_ADDENDUM = 'Oracle additions: 441 histories in which the view chain is taken after backward() (or both before and after) from a C-/Fortran-ordered owner or a former view, with op-made, default, scalar and caller-supplied (C-ordered, Fortran-ordered, broadcast) array seeds, followed by `.shape =` inside no_autodiff; view elements are identified by memory address (any layout of base and view); 18 views made with mutable argument objects (tensor/array-valued indices and slice bounds, list-valued shapes/axes) that the caller changes before the gradient is read. Also proved: permuting_views_layout_independent (for every view op other than basic indexing and reshape, success, result shape and view-ness depend on the operand`s shape only, never on offset or strides: reshape is the one layout-dependent op) and getitem_layout_independent (the same for basic indexing, by induction over the index tuple).'
